@@ -6,7 +6,9 @@ K2a  ``_ttf_get_glyph_features`` / ``_FONT_CACHE``: symbolic glyph-id lists, his
 K2b  ``_get_round_keys`` / ``_ROUND_KEY_CACHE``: fully symbolic keys, the solver decides which keys coincide
 K2m  lru_cache'd router / content-type lookups and ``_get_type_registry`` under lookup histories
 K3   sequences of <=3 real extractions (failing ones, injected faults, abandoned generators included):
-     per-document result == isolated baseline, third-party attributes / configuration / temp root / fds back
+     per-document result == isolated baseline, third-party attributes / library module state /
+     configuration / temp root / fds back
+K3d  base case: the same document twice from the same process state gives the same result
 """
 import contextlib
 import gc
@@ -69,6 +71,7 @@ class _Pristine:
                 self.classes[cname] = (c, dict(vars(c)))
         ae = _ae()
         self.config = ae._config
+        self.pe_state = _lib_state(_pe())
         import logging
         for lg in ("sharepoint2text", "pypdf"):
             logging.getLogger(lg).setLevel(logging.CRITICAL + 1)
@@ -123,6 +126,7 @@ class _Pristine:
                 if vars(c).get(a, _MISSING) is not v:
                     setattr(c, a, v)
         pe, aes, ae = _pe(), _aes(), _ae()
+        _restore_lib_state(pe, self.pe_state)
         pe._FONT_CACHE.clear()
         aes._ROUND_KEY_CACHE.clear()
         ae._config = self.config
@@ -133,6 +137,41 @@ class _Pristine:
 
 _MISSING = object()
 _P = None
+_SIMPLE = (int, float, bool, str, type(None))
+MEMO_TABLES = ("_FONT_CACHE",)      # memo tables may grow; what they may not do is change results (K2a, K3)
+
+
+def _lib_state(mod, exclude=MEMO_TABLES):
+    """module-level variables of a library module that hold plain data (numbers, strings, None, lists, dicts,
+    sets): name -> value (containers copied shallowly).  Whatever bookkeeping the library keeps at module level
+    shows up here without the harness naming it."""
+    out = {}
+    for n, v in vars(mod).items():
+        if n in exclude or (n.startswith("__") and n.endswith("__")):
+            continue
+        if type(v) in _SIMPLE:
+            out[n] = v
+        elif type(v) in (list, dict, set):
+            out[n] = type(v)(v)
+    return out
+
+
+def _restore_lib_state(mod, snap):
+    for n, v in snap.items():
+        cur = vars(mod).get(n, _MISSING)
+        if type(v) in _SIMPLE:
+            if cur is not v and cur != v or type(cur) is not type(v):
+                setattr(mod, n, v)
+        elif type(cur) is type(v):
+            if cur != v:
+                cur.clear()
+                cur.extend(v) if isinstance(cur, list) else cur.update(v)
+        else:
+            setattr(mod, n, type(v)(v))
+
+
+def _state_diff(a, b):
+    return sorted(n for n in set(a) | set(b) if a.get(n, _MISSING) != b.get(n, _MISSING))
 
 
 def _pristine():
@@ -237,10 +276,9 @@ def k1_schedules(ctx):
                 if out != want:
                     return -1
                 depths.append(calls["patch"])
-            if ctx.perturb == "depth_le_1":
-                return max(depths)
             return agg(depths)
 
+        lib_before = _lib_state(pe)
         cms = [None] * k
         state = [0] * k          # 0 outside, 1 inside, 2 left
         stack, sched, nested = [], [], True
@@ -287,8 +325,11 @@ def k1_schedules(ctx):
                         depth = call_installed()
                         ctx.require(depth != 0 and depth != -1, "patched-function-not-effective", depth=depth,
                                     schedule=list(sched), nested=nested)
-                        if ctx.perturb == "depth_le_1":
-                            ctx.require(depth <= 1, "twin-depth", depth=depth, schedule=list(sched))
+                if ctx.perturb == "expect_restore_at_first_exit" and probes and 2 in state:
+                    # twin: demands the original back as soon as ANY thread has left - refuted exactly by the
+                    # schedules in which another thread is still inside (overlap is reached)
+                    ctx.require(all(getattr(mod, name) is orig for mod, name, orig in probes), "twin-overlap",
+                                schedule=list(sched))
             # -- everybody has left ---------------------------------------------------------
             left = P.changed(CHARMAP_MODULES) if api == "installed" else []
             for m, was in fake_snap:
@@ -300,6 +341,9 @@ def k1_schedules(ctx):
                         schedule=list(sched), nested=nested)
             if api in ("new", "legacy"):
                 ctx.require(call_installed(max) == 0, "original-not-back-in-force", schedule=list(sched))
+            lib_after = _lib_state(pe)
+            ctx.require(lib_after == lib_before, "library-module-state-not-restored",
+                        changed=_state_diff(lib_before, lib_after), schedule=list(sched), nested=nested)
         finally:
             P.reset()
 
@@ -782,9 +826,25 @@ def _json_default(o):
     return "<%s>" % type(o).__name__
 
 
-def _digest(objs):
-    return [hashlib.sha256(json.dumps(o.to_json(), sort_keys=True, default=_json_default).encode()).hexdigest()[:12]
-            for o in objs]
+_ADDR = None
+
+
+def _digest(objs, raw=False):
+    """digest of to_json() per unit.  Unless ``raw``, the object address inside the text pypdf prints for an
+    indirect reference ('IndirectObject(16, 0, 140028663430320)', which the PDF extractor copies into
+    PdfImage.color_space) is masked: that defect is K3d's subject and would otherwise make every history look
+    different."""
+    global _ADDR
+    import re
+    if _ADDR is None:
+        _ADDR = re.compile(r"IndirectObject\((\d+), (\d+), \d+\)")
+    out = []
+    for o in objs:
+        txt = json.dumps(o.to_json(), sort_keys=True, default=_json_default)
+        if not raw:
+            txt = _ADDR.sub(r"IndirectObject(\1, \2, *)", txt)
+        out.append(hashlib.sha256(txt.encode()).hexdigest()[:12])
+    return out
 
 
 class _Fault(Exception):
@@ -935,6 +995,7 @@ def k3_residue(ctx):
         left_files = sorted(os.listdir(scratch))
         charmap = P.changed(CHARMAP_MODULES)
         crypto = P.changed(CRYPTO_MODULES)
+        lib_changed = _state_diff(P.pe_state, _lib_state(_pe()))
         config_after = ae._config
     finally:
         P.reset()
@@ -952,9 +1013,63 @@ def k3_residue(ctx):
     if ctx.perturb == "expect_crypto_untouched":
         ctx.require(not crypto, "twin-crypto")
     ctx.require(not charmap, "pypdf-char-map-attribute-not-restored", residue=charmap, sequence=seq)
+    ctx.require(not lib_changed, "pdf-extractor-module-state-not-restored", changed=lib_changed, sequence=seq)
     ctx.require(config_after is config_before, "archive-configuration-changed", sequence=seq)
     ctx.require(not left_files, "temporary-files-left-behind", left=left_files[:5], sequence=seq)
     ctx.require(fds_after == fds_before, "open-handles-left-behind", before=fds_before, after=fds_after, sequence=seq)
+
+
+K3D_FINDING = "C15-pdf-image-color-space-carries-object-address"
+
+
+def _k3d_documents():
+    import glob
+    docs = [("doc:" + n, None) for n in ("pdf", "pdf_digits_a", "pdf_aes256r5", "pdf_rc4", "7z", "zip", "epub", "odt")]
+    docs += [("file:" + os.path.relpath(f, _res_dir()), f)
+             for f in sorted(glob.glob(os.path.join(_res_dir(), "pdf", "*.pdf")))]
+    return docs
+
+
+def k3d_same_document_twice(ctx):
+    """base case of history independence: the history is the same document, once.  Both runs start from the
+    snapshot state, so any difference is carried by something outside the state this check knows about."""
+    from sharepoint2text.parsing import router
+    from sharepoint2text.parsing.exceptions import ExtractionError
+    P = _pristine()
+    docs = _k3d_documents()
+    name = ctx.params["doc"]
+    path = dict(docs)[name]
+    masked = (not ctx.perturb) and K3D_FINDING in (ctx.params.get("known_active") or ())
+
+    def once():
+        P.reset()
+        try:
+            if path is None:
+                return _run_entry(ctx, name[4:]) if masked else _run_entry_raw(ctx, name[4:])
+            with open(path, "rb") as f:
+                data = f.read()
+            return ("ok", _digest(list(router.get_extractor(path)(io.BytesIO(data), path)), raw=not masked))
+        except ExtractionError as e:
+            return ("extraction-error", type(e).__name__)
+        finally:
+            P.reset()
+    a, b = once(), once()
+    if ctx.perturb == "expect_two_runs_to_differ":
+        ctx.require(a != b, "twin-determinism")
+    ctx.require(a == b, "same-document-extracted-twice-gives-different-results", document=name, masked=masked,
+                first=repr(a)[:120], second=repr(b)[:120])
+
+
+def _run_entry_raw(ctx, name):
+    pe, ae = _pe(), _ae()
+    d = _docs()
+    if name.startswith("pdf"):
+        return ("ok", _digest(list(pe.read_pdf(io.BytesIO(d[name]), "dir/x.pdf")), raw=True))
+    return _run_entry(ctx, name)
+
+
+def _k3d_parts(tier):
+    return [{"doc": n} for n, _ in _k3d_documents()]
 
 
 def _k3_parts(tier):
@@ -993,12 +1108,17 @@ def _t_k3():
             ae.configure_archive_extraction]
 
 
+def _t_k3d():
+    pe = _pe()
+    return [pe.read_pdf, pe._extract_image]
+
+
 KERNELS = [
     Kernel("K1", "every enter/exit schedule of k instances of _patched_build_char_map (bodies may fail): patch in "
                  "force while inside, every pypdf attribute IS the original after all have left",
            k1_schedules, targets=_t_k1, parts=_k1_parts, strength="structure",
            bounds={"quick": {"K": 3}, "thorough": {"K": 4}},
-           perturb=[("depth_le_1", {"api": "new"}), "expect_wrapper_after_exit"],
+           perturb=[("expect_restore_at_first_exit", {"api": "new"}), "expect_wrapper_after_exit"],
            choices=["number of threads", "thread taking each of the 2k schedule slots", "body failure per thread",
                     "pypdf layout: installed / >=6.6 (_cmap+_font.get_encoding) / <6.6 (_page.build_char_map) / neither"],
            stubs=["layouts other than the installed one: pypdf._cmap/_font/_page -> namespace objects with recording "
@@ -1028,7 +1148,7 @@ KERNELS = [
            assumptions=["_ROUND_KEY_CACHE (an OrderedDict) replaced in symbolic runs by an insertion-ordered table "
                         "with solver-decided key comparison; S-box as an uninterpreted function (C20/K1)"],
            outside=["request sequences longer than the bound"],
-           timeout={"quick": 110, "thorough": 1100}, solver_timeout_ms=60000),
+           timeout={"quick": 150, "thorough": 1100}, solver_timeout_ms=60000),
     Kernel("K2m", "lru_cache'd router / content-type lookups answer as the undecorated function after any lookup "
                   "history; _get_type_registry idempotent and == the result dataclasses",
            k2m_lookups, targets=_t_k2m, parts=_k2m_parts, strength="structure", core=False,
@@ -1048,7 +1168,13 @@ KERNELS = [
            assumptions=["the one-way AES fallback patch of pypdf._crypt_providers/_encryption is by design: its "
                         "installation is recorded as an observation (notes), only its effect on results is judged"],
            outside=["concurrent extractions of mixed formats", "fd accounting under real threads"],
-           timeout={"quick": 110, "thorough": 1100}),
+           timeout={"quick": 150, "thorough": 1100}),
+    Kernel("K3d", "the same document extracted twice from the same process state gives the same result (every PDF "
+                  "fixture, the generated documents, archives, EPUB, ODT)",
+           k3d_same_document_twice, targets=_t_k3d, parts=_k3d_parts, strength="structure", core=False,
+           perturb=[("expect_two_runs_to_differ", {"doc": "doc:pdf"})],
+           choices=["document (one part each)"],
+           outside=["formats other than PDF / archive / EPUB / ODT (their determinism is C03's and C05's subject)"]),
 ]
 
 META = {
@@ -1058,8 +1184,9 @@ META = {
                   "LRU on fully symbolic keys (the solver decides which requests coincide) and each answer is compared "
                   "with the unmemoised computation; all sequences of up to 3 real extractions from a 14-entry "
                   "vocabulary (faults, truncated and encrypted PDFs, abandoned 7z generators) are compared per "
-                  "document with an isolated baseline and the patched pypdf attributes, archive configuration, temp "
-                  "root and fd count are compared with a snapshot.",
+                  "document with an isolated baseline and the patched pypdf attributes, the PDF extractor's module-level "
+                  "bookkeeping, archive configuration, temp root and fd count are compared with a snapshot; every PDF "
+                  "fixture is extracted twice from the same state.",
     "level_note": "Granularity of schedules is enter/exit of the critical section; pre-emption inside __enter__/__exit__ "
                   "and real-thread runs are outside. The one-way AES fallback patch is recorded as an observation. "
                   "Trusted: the insertion-ordered table model of OrderedDict (cross-checked by concrete re-execution).",
